@@ -284,6 +284,16 @@ def r2(ctx):
         t.event_hooks.append(hook)
         t.run(s, sp)
         ctx.require(bool(verdicts), f"C08.R2: {cname}.serialize has no wire event to guard")
+        if not all(verdicts):
+            deleg: List[bool] = []
+            t2 = Tracer(repo, ci, "main")
+            t2.event_hooks.append(lambda tok, node, st, fr, sid, deleg=deleg, ci=ci:
+                                  deleg.append(tok[0] == "E" and _child_is_guarded_fixed(repo, ci, tok[1]))
+                                  if sid == "main" and tok[0] in ("E", "B") else None)
+            t2.run(s, sp)
+            if deleg and all(deleg):
+                verdicts[:] = [True]
+                ctx.note(f"C08.R2 {cname}.serialize: size enforced by the fixed-size child spec it writes through")
         ctx.ob("C08.R2", f"{_label(ci)}.serialize: size {size_path} enforced (raise) before every write",
                all(verdicts), s.where, "a value of the wrong size would be written instead of rejected")
 
@@ -291,27 +301,31 @@ def r2(ctx):
     pack = repo.fn("BitField.pack", HELPERS)
     t = Tracer(repo, pack.cls, None)
     acc: Dict[str, List[bool]] = {}
-    derived = _derived_from_loop_targets(pack.node)
 
     def shook(stmt, st, fr):
         if not (isinstance(stmt, ast.AugAssign) and isinstance(stmt.op, ast.BitOr)):
             return
         if st.loopdepth == 0:
             return
-        members = {n.id for n in ast.walk(stmt.value) if isinstance(n, ast.Name)
-                   and str(st.env.get(n.id, "")).startswith("<param>")}
+        # the member being OR-ed in: an element of pack()'s value parameter, whatever it is called here
+        members = {t.sym(n, st, fr) for n in ast.walk(stmt.value) if isinstance(n, (ast.Name, ast.Subscript))}
+        members = {m for m in members if m.startswith("<param>[")}
         if not members:
             return
         branch = ",".join(sorted(f"{v[2]}={v[0]}" for v in st.pc.values() if SPEC_PATH.fullmatch(v[2])))
         ok = False
         for g in st.guards[st.gbase:]:
+            gst = St()
+            gst.env = g.env
             for l, op, r, en, node in _guard_rels(t, g):
                 if en:
                     continue
                 lhs, rhs = node.left, node.comparators[0]
-                for a, b, o in ((lhs, rhs, op), (rhs, lhs, _FLIP[op])):
-                    if isinstance(a, ast.Name) and a.id in members and o in ("<=", "<", "==") and \
-                            ({n.id for n in ast.walk(b) if isinstance(n, ast.Name)} & derived):
+                for a, asym, b, o in ((lhs, l, rhs, op), (rhs, r, lhs, _FLIP[op])):
+                    # the bound must be computed (a mask), not the member itself or a literal
+                    computed = any(not t.sym(n, gst, g.fr).startswith(("<param>", "<value>"))
+                                   for n in ast.walk(b) if isinstance(n, ast.Name))
+                    if asym in members and o in ("<=", "<", "==") and computed:
                         ok = True
         acc.setdefault(branch or "always", []).append(ok)
     t.stmt_hooks.append(shook)
@@ -323,26 +337,172 @@ def r2(ctx):
                "an out-of-range member would spill into its neighbour's bits instead of being rejected")
 
 
-def _derived_from_loop_targets(fn_node) -> Set[str]:
-    """Names derived (through assignments) from the targets of for-loops over self attributes."""
-    seeds: Set[str] = set()
-    for n in walk(fn_node):
-        if isinstance(n, ast.For):
-            src = n.iter
-            while isinstance(src, ast.Call) and isinstance(src.func, ast.Attribute):
-                src = src.func.value
-            p = ap(src) or ""
-            if p.startswith(("self.", "cls.")):
-                seeds |= {x.id for x in ast.walk(n.target) if isinstance(x, ast.Name)}
-    changed = True
-    while changed:
-        changed = False
-        for st in stores(fn_node, into_defs=False):
-            if st.kind in ("assign", "augassign") and st.value is not None and "." not in st.path and "[" not in st.path:
-                if {x.id for x in ast.walk(st.value) if isinstance(x, ast.Name)} & seeds and st.path not in seeds:
-                    seeds.add(st.path)
-                    changed = True
-    return seeds
+def _child_is_guarded_fixed(repo, ci: ClassInfo, spec_sym: str) -> bool:
+    """spec_sym is '@.attr' and every assignment of self.attr in the class builds a class that has its
+    own fixed-size row (whose guard is checked there)."""
+    m = re.fullmatch(r"@\.(\w+)", spec_sym)
+    if not m:
+        return False
+    fixed = {c for _, c, _, _ in R2_FIXED}
+    vals = []
+    for c in repo.mro(ci):
+        for meth in c.methods.values():
+            for st in stores(meth.node, into_defs=False):
+                if st.path == f"self.{m.group(1)}" and st.kind == "assign" and st.value is not None:
+                    vals.append(st.value)
+    return bool(vals) and all(isinstance(v, ast.Call) and (ap(v.func) or "").split(".")[-1] in fixed
+                              and (ap(v.func) or "").split(".")[-1] != ci.name for v in vals)
+
+
+# ----------------------------------------------------------------------------- R2 (iv) / R8: statement lints
+
+def _scoped_nodes(t: Tracer, node, st: St, fr):
+    """(sub-node, state in whose env comprehension targets are bound) for every node below `node`."""
+    yield node, st
+    if isinstance(node, (ast.GeneratorExp, ast.ListComp, ast.SetComp, ast.DictComp)):
+        inner = St()
+        inner.env = dict(st.env)
+        for g in node.generators:
+            yield from _scoped_nodes(t, g.iter, inner, fr)
+            _, _, elem = t.iter_info(g.iter, inner, fr)
+            t._bind(g.target, elem, inner)
+            for c in g.ifs:
+                yield from _scoped_nodes(t, c, inner, fr)
+        for e in ([node.key, node.value] if isinstance(node, ast.DictComp) else [node.elt]):
+            yield from _scoped_nodes(t, e, inner, fr)
+        return
+    if isinstance(node, ast.Lambda):
+        return
+    for ch in ast.iter_child_nodes(node):
+        if isinstance(ch, (ast.expr, ast.keyword, ast.comprehension)):
+            yield from _scoped_nodes(t, ch, st, fr)
+
+
+_S_CODE = re.compile(r"\d*[sp]")
+
+
+def _fmt_truncates(node) -> bool:
+    """A struct format with a byte-string code ('Ns' / 'Np' silently cut longer values)."""
+    if isinstance(node, ast.Constant) and isinstance(node.value, str):
+        return bool(_S_CODE.search(node.value.lstrip("<>!=@")))
+    # a format assembled at run time (f-string, %-formatting, .format): any literal piece carrying the code
+    return any(isinstance(v, ast.Constant) and isinstance(v.value, str)
+               and re.search(r"[sp]", v.value.replace("%s", "").replace("{}", ""))
+               for v in ast.walk(node))
+
+
+def _struct_attr_truncates(repo, ci: Optional[ClassInfo], recv_sym: str) -> bool:
+    m = re.fullmatch(r"@\.(\w+)", recv_sym)
+    if not m or ci is None:
+        return False
+    for c in repo.mro(ci):
+        for meth in c.methods.values():
+            for st in stores(meth.node, into_defs=False):
+                if st.path == f"self.{m.group(1)}" and isinstance(st.value, ast.Call) and \
+                        (ap(st.value.func) or "").endswith("Struct") and st.value.args and _fmt_truncates(st.value.args[0]):
+                    return True
+    return False
+
+
+def _len_guarded(t: Tracer, guards, measured: str) -> bool:
+    for g in guards:
+        for l, op, r, en, _ in _guard_rels(t, g):
+            if r == f"len({measured})":
+                l, op, r = r, _FLIP[op], l
+            if l == f"len({measured})" and op in ("<=", "<", "==") and not en:
+                return True
+    return False
+
+
+def r2_truncation(ctx):
+    """(iv) nothing on a write path silently cuts the value: a slice with an upper bound or a struct 's'/'p'
+    pack applied to (a representation of) the value is dominated by a rejecting length test of that very
+    representation."""
+    repo = ctx.repo
+    for label, ci, s, d, sp, dp in discover_pairs(ctx):
+        if sp is None:
+            continue
+        vp = (_params(s) or [None])[0]
+        t = Tracer(repo, ci, "main")
+        bad: List[str] = []
+        seen: List[int] = []
+
+        def pre(stmt, st, fr, t=t, bad=bad, seen=seen, ci=ci):
+            for n, sc in _scoped_nodes(t, stmt, st, fr):
+                cut = None
+                if isinstance(n, ast.Subscript) and isinstance(n.slice, ast.Slice) and n.slice.upper is not None \
+                        and isinstance(n.ctx, ast.Load):
+                    cut = n.value
+                elif isinstance(n, ast.Call) and isinstance(n.func, ast.Attribute) and n.func.attr in ("pack", "pack_into") \
+                        and n.args:
+                    rs = t.sym(n.func.value, sc, fr)
+                    if rs == "struct" and _fmt_truncates(n.args[0]) and len(n.args) > 1:
+                        cut = n.args[1]
+                    elif _struct_attr_truncates(repo, ci, rs):
+                        cut = n.args[0]
+                if cut is None:
+                    continue
+                measured = t.sym(cut, sc, fr)
+                alts = measured[1:-1].split("|") if measured.startswith("{") and measured.endswith("}") else [measured]
+                for m_ in alts:
+                    if not m_.startswith("<value>"):
+                        continue
+                    seen.append(1)
+                    if not _len_guarded(t, st.guards, m_):
+                        bad.append(f"{norm(n)} cuts {m_}")
+        t.pre_stmt_hooks.append(pre)
+        t.run(s, sp, value_param=vp)
+        ctx.stats["C08.R2.truncating operations on values"] = ctx.stats.get("C08.R2.truncating operations on values", 0) + len(seen)
+        ctx.ob("C08.R2", f"{label}.serialize: nothing silently cuts the value (slice / struct 's' pack) without a "
+                         f"rejecting length test of that same representation", not bad, s.where,
+               "; ".join(sorted(set(bad))) + ": an over-long value would be written truncated instead of rejected")
+
+
+def r8(ctx):
+    repo = ctx.repo
+    ctx.rule("C08.R8", "decoders do not sanitise: a value read from the stream is never replaced by a constant "
+                       "under a test of that value (two wire values would decode to the same result)")
+    n_cls = 0
+    for label, ci, s, d, sp, dp in discover_pairs(ctx):
+        if dp is None:
+            continue
+        n_cls += 1
+        t = Tracer(repo, ci, "main")
+        bad: List[str] = []
+
+        def from_stream(sym_: str) -> bool:
+            return "<stream:" in sym_
+
+        def pre(stmt, st, fr, t=t, bad=bad):
+            for n, sc in _scoped_nodes(t, stmt, st, fr):
+                if not isinstance(n, ast.IfExp):
+                    continue
+                for keep, other in ((n.body, n.orelse), (n.orelse, n.body)):
+                    if isinstance(other, ast.Constant) and other.value is not None and not isinstance(keep, ast.Constant):
+                        ks = t.sym(keep, sc, fr)
+                        tested = {t.sym(x, sc, fr) for x in ast.walk(n.test) if isinstance(x, (ast.Name, ast.Attribute, ast.Subscript))}
+                        if from_stream(ks) and ks in tested:
+                            bad.append(norm(n))
+        t.pre_stmt_hooks.append(pre)
+        orig_if = t._if
+
+        def _if(s_, st, fr, t=t, bad=bad, orig_if=orig_if):
+            # statement form:  if test(v): v = CONST
+            for blk, _pol in ((s_.body, True), (s_.orelse, False)):
+                for a in blk:
+                    if isinstance(a, ast.Assign) and len(a.targets) == 1 and isinstance(a.targets[0], ast.Name) \
+                            and isinstance(a.value, ast.Constant) and a.value.value is not None:
+                        vs = t.sym(a.targets[0], st, fr)
+                        tested = {t.sym(x, st, fr) for x in ast.walk(s_.test) if isinstance(x, (ast.Name, ast.Attribute, ast.Subscript))}
+                        if from_stream(vs) and vs in tested:
+                            bad.append(f"if {norm(s_.test)}: {norm(a)}")
+            return orig_if(s_, st, fr)
+        t._if = _if
+        t.run(d, dp)
+        ctx.ob("C08.R8", f"{label}.deserialize: no value read from the stream is replaced by a constant under a test "
+                         f"of that value", not bad, d.where,
+               "; ".join(sorted(set(bad))) + ": distinct wire values decode to one result, read(write(v)) != v for them")
+    ctx.floor("C08.R8", "deserializers inspected", n_cls, 28)
 
 
 # ----------------------------------------------------------------------------- R3
@@ -859,11 +1019,13 @@ def r7(ctx):
 def run(ctx):
     r1(ctx)
     r2(ctx)
+    r2_truncation(ctx)
     r3(ctx)
     r4(ctx)
     r5(ctx)
     r6(ctx)
     r7(ctx)
+    r8(ctx)
     ctx.assume("read(write(v)) == v over generated spec trees and values is not decided statically; branch "
                "conditions of the two directions are not compared (a flipped test is a value-level fault)")
     ctx.assume("comprehension / generator events are placed where the comprehension is written; closures returned "
